@@ -569,7 +569,7 @@ pub fn run_cases(area: &Area, cmds: &[String], dir: &str, dist: &Dist) {
             let mut g = results[i].lock().unwrap();
             if g.is_none() {
                 *g = Some(if frozen {
-                    ("RUNAWAY".to_string(), "FAIL the call allocates without bound (more than 8 GiB live; the thread was frozen)".to_string())
+                    ("RUNAWAY".to_string(), "FAIL the call allocates without bound (more than 24 GiB live; the thread was frozen)".to_string())
                 } else {
                     ("TIMEOUT".to_string(), format!("FAIL the call did not return within {CASE_TIMEOUT_S} s of user CPU time (hang)"))
                 });
